@@ -11,6 +11,10 @@ import (
 	"compress/zlib"
 	"fmt"
 	"io/ioutil"
+	"reflect"
+	"sort"
+	"strconv"
+	"strings"
 )
 
 type verifStop struct{ why string }
@@ -208,4 +212,105 @@ func verifDecodeBody(chunks [][]byte, coding string) ([]byte, bool) {
 		return out, true
 	}
 	return nil, false
+}
+
+// verifFingerprint renders everything reachable from v (following pointers,
+// including unexported fields) as a string, so that a native run can tell
+// whether serving a request changed configuration state. Locks, pools and
+// function values are skipped. Under the symbolic executor the frame monitor
+// does this job and the function returns "".
+func verifFingerprint(v interface{}) string {
+	var sb strings.Builder
+	seen := map[uintptr]bool{}
+	vFP(&sb, reflect.ValueOf(v), seen, 0)
+	return sb.String()
+}
+
+func vFP(sb *strings.Builder, v reflect.Value, seen map[uintptr]bool, depth int) {
+	if depth > 40 {
+		sb.WriteString("<deep>")
+		return
+	}
+	switch v.Kind() {
+	case reflect.Invalid:
+		sb.WriteString("<nil>")
+	case reflect.Ptr:
+		if v.IsNil() {
+			sb.WriteString("nil")
+			return
+		}
+		if seen[v.Pointer()] {
+			sb.WriteString("<seen>")
+			return
+		}
+		seen[v.Pointer()] = true
+		sb.WriteString("&")
+		vFP(sb, v.Elem(), seen, depth+1)
+	case reflect.Interface:
+		if v.IsNil() {
+			sb.WriteString("nil")
+			return
+		}
+		vFP(sb, v.Elem(), seen, depth+1)
+	case reflect.Struct:
+		tn := v.Type().String()
+		if strings.HasPrefix(tn, "sync.") || strings.HasPrefix(tn, "atomic.") || tn == "regexp.Regexp" {
+			sb.WriteString("<" + tn + ">")
+			return
+		}
+		sb.WriteString(tn + "{")
+		for i := 0; i < v.NumField(); i++ {
+			sb.WriteString(v.Type().Field(i).Name + ":")
+			vFP(sb, v.Field(i), seen, depth+1)
+			sb.WriteString(",")
+		}
+		sb.WriteString("}")
+	case reflect.Slice, reflect.Array:
+		if v.Kind() == reflect.Slice && v.IsNil() {
+			sb.WriteString("nil[]")
+			return
+		}
+		sb.WriteString("[")
+		for i := 0; i < v.Len(); i++ {
+			vFP(sb, v.Index(i), seen, depth+1)
+			sb.WriteString(",")
+		}
+		sb.WriteString("]")
+	case reflect.Map:
+		if v.IsNil() {
+			sb.WriteString("nilmap")
+			return
+		}
+		keys := v.MapKeys()
+		strs := make([]string, len(keys))
+		for i, k := range keys {
+			var kb strings.Builder
+			vFP(&kb, k, seen, depth+1)
+			var vb strings.Builder
+			vFP(&vb, v.MapIndex(k), seen, depth+1)
+			strs[i] = kb.String() + "=" + vb.String()
+		}
+		sort.Strings(strs)
+		sb.WriteString("map[" + strings.Join(strs, ";") + "]")
+	case reflect.Func:
+		if v.IsNil() {
+			sb.WriteString("nilfunc")
+		} else {
+			sb.WriteString("func")
+		}
+	case reflect.Chan:
+		sb.WriteString(fmt.Sprintf("chan(%d)", v.Len()))
+	case reflect.String:
+		sb.WriteString(strconv.Quote(v.String()))
+	case reflect.Bool:
+		sb.WriteString(strconv.FormatBool(v.Bool()))
+	case reflect.Int, reflect.Int8, reflect.Int16, reflect.Int32, reflect.Int64:
+		sb.WriteString(strconv.FormatInt(v.Int(), 10))
+	case reflect.Uint, reflect.Uint8, reflect.Uint16, reflect.Uint32, reflect.Uint64, reflect.Uintptr:
+		sb.WriteString(strconv.FormatUint(v.Uint(), 10))
+	case reflect.Float32, reflect.Float64:
+		sb.WriteString(strconv.FormatFloat(v.Float(), 'g', -1, 64))
+	default:
+		sb.WriteString("<" + v.Kind().String() + ">")
+	}
 }
